@@ -1,6 +1,6 @@
 SPECIFICATION TSpec
 CONSTANTS
-  Ctls = {"c1", "c2", "c3"}
+  Layouts = {10, 20, 30, 11, 21, 22}
 CONSTRAINT Track
 POSTCONDITION Verdicts
 CHECK_DEADLOCK FALSE
